@@ -164,6 +164,40 @@ def make_alias(ctx, tn, how):
     return run, check
 
 
+def make_cons_alias(ctx, spin):
+    """a constraint polynomial passed as a *model object* is copied: editing it afterwards does not change the recorded constraint; nor does editing what .constraints returns"""
+    import qubovert as qv
+    T = qv.PCSO if spin else qv.PCBO
+    PT = [qv.PUSO, qv.PCSO, qv.QUSO] if spin else [qv.PUBO, qv.PCBO, qv.QUBO]
+    cs = {k: ctx.int_var('c%d' % i, -2, 2) for i, k in enumerate([('a',), ('b',), ()])}
+    v = ctx.real_var('v')
+    sel = ctx.int_var('rel', 0, 5)
+    psel = ctx.int_var('ptype', 0, 2)
+
+    def run():
+        rel = ['eq', 'ne', 'lt', 'le', 'gt', 'ge'][int(sel)]
+        P = PT[int(psel)]({k: cs[k] for k in cs})
+        H = T({('q',): 1})
+        with warnings.catch_warnings():
+            warnings.simplefilter('ignore')
+            getattr(H, 'add_constraint_%s_zero' % rel)(P, lam=1, **({} if rel == 'eq' else {'bounds': (-9, 9)}))
+        snap = lambda: {k: [O.snapshot(x) for x in vv] for k, vv in H.constraints.items()}
+        s0 = snap(); t0 = O.snapshot(H)
+        P[('a',)] += v; P[('zz',)] = 5; P *= 2
+        ok_after_edit = (snap() == s0 and O.snapshot(H) == t0)
+        info = H.constraints
+        for vv in info.values():
+            for x in vv:
+                x[('yy',)] = 1
+        return rel, type(P).__name__, ok_after_edit, snap() == s0
+
+    def check(res):
+        rel, pt, ok1, ok2 = res
+        return [Ob('editing the polynomial passed to add_constraint_%s_zero (%s) afterwards leaves the model unchanged' % (rel, pt), ok1, sig='constraint polynomial aliased by add_constraint_%s_zero' % rel),
+                Ob('editing the polynomials returned by .constraints leaves the model unchanged (%s)' % rel, ok2, sig='constraints property aliased')]
+    return run, check
+
+
 def sweep_list(spin):
     """(name, callable(model_or_dict) ) -- library functions taking a model / dict / constraint polynomial argument"""
     import qubovert as qv
@@ -274,6 +308,8 @@ def jobs(tier, seed):
             add('info/%s/cons=ne+ge+zero' % tn, 'make_info', dict(tn=tn, name_idx=0, cons=['ne', 'ge', 'zero'], remap=False))
         for how in ['copy()', 'ctor', 'pos', 'add0']:
             add('alias/%s/%s' % (tn, how), 'make_alias', dict(tn=tn, how=how))
+    for sp in (False, True):
+        add('cons-alias/%s' % ('spin' if sp else 'bool'), 'make_cons_alias', dict(spin=sp))
     for tn in ['dict', 'PUBO', 'PCBO', 'QUBO']:
         add('sweep/%s/bool' % tn, 'make_sweep', dict(tn=tn, spin=False))
     for tn in ['dict', 'PUSO', 'PCSO', 'QUSO']:
